@@ -27,7 +27,7 @@ for e in known:
     out2.append("| `%s` | %s |" % (e["id"], clean(e["what"], e)))
 p = "/verif/DESIGN.md"
 s = open(p).read()
-s = re.sub(r"<!-- FIXED-TABLE-BEGIN -->.*?<!-- FIXED-TABLE-END -->", "<!-- FIXED-TABLE-BEGIN -->\n" + "\n".join(out) + "\n<!-- FIXED-TABLE-END -->", s, flags=re.S)
-s = re.sub(r"<!-- KNOWN-TABLE-BEGIN -->.*?<!-- KNOWN-TABLE-END -->", "<!-- KNOWN-TABLE-BEGIN -->\n" + "\n".join(out2) + "\n<!-- KNOWN-TABLE-END -->", s, flags=re.S)
+s = re.sub(r"<!-- FIXED-TABLE-BEGIN -->.*?<!-- FIXED-TABLE-END -->", lambda m: "<!-- FIXED-TABLE-BEGIN -->\n" + "\n".join(out) + "\n<!-- FIXED-TABLE-END -->", s, flags=re.S)
+s = re.sub(r"<!-- KNOWN-TABLE-BEGIN -->.*?<!-- KNOWN-TABLE-END -->", lambda m: "<!-- KNOWN-TABLE-BEGIN -->\n" + "\n".join(out2) + "\n<!-- KNOWN-TABLE-END -->", s, flags=re.S)
 open(p, "w").write(s)
 print(out[-1], len(known), "known")
